@@ -37,7 +37,7 @@ Fails(k) ==
   \cup (IF C15_Frozen(o) THEN {} ELSE {"C15_Frozen"}) \cup (IF C15_EqHash(o) THEN {} ELSE {"C15_EqHash"})
   \cup (IF C15_Pickle(o) THEN {} ELSE {"C15_Pickle"}) \cup (IF C15_Deps(o) THEN {} ELSE {"C15_Deps"})
   \cup (IF C07_Deterministic(o) THEN {} ELSE {"C07_Deterministic"}) \cup (IF C07_StorageAccepts(o) THEN {} ELSE {"C07_StorageAccepts"})
-  \cup (IF C07_Distinct(k) THEN {} ELSE {"C07_Distinct"})
+  \cup (IF IOEnv.LV_PROP # "C07" \/ C07_Distinct(k) THEN {} ELSE {"C07_Distinct"})     \* pairwise: only when C07 is judged
   \cup (IF C09_Reconstruct(o) THEN {} ELSE {"C09_Reconstruct"}) \cup (IF C09_ListedOnce(o) THEN {} ELSE {"C09_ListedOnce"})
   \cup (IF DriftSer(o) THEN {} ELSE {"drift_ser"})
 
